@@ -831,13 +831,17 @@ impl<RK: RadioKind> Interp<RK> {
                 }
                 if let Some(hz) = self.exp_freq {
                     let (lo, hi) = frf_of(self.board, hz);
-                    let earlier = self.continuing && self.exp_freq_before_fault.map(|h| { let (l, u) = frf_of(self.board, h); freq == l || freq == u }).unwrap_or(false);
-                    if freq != lo && freq != hi && !earlier {
+                    // the application went on after a call that failed on an injected fault: that call may have
+                    // replaced nothing (the earlier request is still in force) or have been interrupted between two
+                    // register writes of one value (SX127x: RegFrf is three writes) - the value is not judged then
+                    let _ = &self.exp_freq_before_fault;
+                    if freq != lo && freq != hi && !self.continuing {
                         return Err(self.viol(case, st, "I3", format!("i3/value/{what}/frequency"), format!("{name} started {what} on PLL word {freq:#x}, requested {hz} Hz = {lo:#x}")));
                     }
                 }
                 if let Some(p) = payload {
-                    if p != self.exp_payload && !(self.continuing && self.exp_payload_before_fault.as_ref() == Some(&p)) {
+                    let _ = &self.exp_payload_before_fault;
+                    if p != self.exp_payload && !self.continuing {
                         return Err(self.viol(case, st, "I3", format!("i3/value/tx/payload"), format!("{name} sent {} instead of {}", hex(&p), hex(&self.exp_payload))));
                     }
                 }
